@@ -14,11 +14,14 @@ git apply --check $WT/patch.diff || { echo "patch does not apply" | tee -a $LOG;
 run() { unshare -n bash -c "ip link set lo up; $1" ; }
 insert_demo() {
   if [[ $DEMOFILE == tests/* ]]; then cp $WT/DEMO.rs $WT/$DEMOFILE; else
-  python3 - "$WT/$DEMOFILE" "$WT/DEMO.rs" <<'PY'
+  python3 - "$WT/$DEMOFILE" "$WT/DEMO.rs" "${APPEND:-0}" <<'PY'
 import sys
 src=open(sys.argv[1]).read(); demo=open(sys.argv[2]).read()
-i=src.rstrip().rfind('}')
-open(sys.argv[1],'w').write(src[:i]+"\n"+demo+"\n}\n")
+if sys.argv[3] == "1":
+    open(sys.argv[1],'w').write(src+"\n"+demo+"\n")
+else:
+    i=src.rstrip().rfind('}')
+    open(sys.argv[1],'w').write(src[:i]+"\n"+demo+"\n}\n")
 PY
   fi
 }
